@@ -234,6 +234,18 @@ func (v *Verifier) lookupFunc(key string) (*types.Func, error) {
 }
 
 func (v *Verifier) resolveType(name string) (*Sort, types.Type, error) {
+	if strings.HasPrefix(name, "raw[]") {
+		// `raw[]T`: the concrete (arr,len) slice sort of []T even when []T is mapped to an abstract list sort - the sort of a
+		// `rawslice` variable; lets a lib spec axiomatise fromraw_<sort> (the abstract reading of such a slice)
+		_, gt, err := v.resolveType(name[len("raw[]"):])
+		if err != nil {
+			return nil, nil, err
+		}
+		if gt == nil {
+			return nil, nil, fmt.Errorf("type %s: element has no Go type", name)
+		}
+		return v.tm.RawSliceSort(types.NewSlice(gt)), nil, nil
+	}
 	if strings.HasPrefix(name, "*") || strings.HasPrefix(name, "[]") {
 		pre := "*"
 		if strings.HasPrefix(name, "[]") {
